@@ -97,7 +97,7 @@ func VerifC08_TraceMeasurements() {
 	sym.Intercept("golang.org/x/sys/unix.Kill", k.kill)
 	sym.Intercept("github.com/criyle/go-sandbox/ptracer.ptraceGetRegSet", k.getRegs)
 	sym.Intercept("syscall.PtraceSetRegs", k.setRegsReq)
-	t := &Tracer{Handler: h, Limit: runner.Limit{TimeLimit: time.Duration(tl), MemoryLimit: runner.Size(ml)}}
+	t := &Tracer{Handler: &hookHandler{inner: h, k: k}, Limit: runner.Limit{TimeLimit: time.Duration(tl), MemoryLimit: runner.Size(ml)}}
 	res := t.trace(context.Background(), pgid)
 	ns := sec*1000000000 + usec*1000
 	bytes := uint64(rss) << 10
